@@ -2119,6 +2119,79 @@ async fn history_does_not_name_elements_the_caller_may_not_read() {
 }
 
 #[tokio::test]
+async fn purging_a_secret_element_does_not_declassify_its_stub() {
+    // The stub and the journal entries about it stay where the element was:
+    // outside the universe of a reader who could not see it. Erasure is not a
+    // disclosure decision.
+    let nexus = stocked("purge_keeps_label").await;
+    two_classified_concepts(&nexus).await;
+    let reader = agent(nexus.governance(), "kip:principal:reader").await;
+    nexus
+        .governance()
+        .create_grant(
+            GrantDraft {
+                space_id: DEFAULT_SPACE.into(),
+                grantee_principal: reader.clone(),
+                actions: vec!["read".into(), "read_history".into()],
+                constraints: AuthorityConstraints {
+                    max_classification: "internal".into(),
+                    ..Default::default()
+                },
+                ..Default::default()
+            },
+            SYSTEM_PRINCIPAL,
+        )
+        .await
+        .unwrap();
+    let session = nexus.session(AuthContext::principal(&reader));
+    let named = |history: &Response| -> Vec<String> {
+        history
+            .first_result()
+            .unwrap()
+            .as_array()
+            .unwrap()
+            .iter()
+            .flat_map(|entry| entry["changes"].as_array().cloned().unwrap_or_default())
+            .filter_map(|change| change["id"].as_str().map(str::to_string))
+            .collect()
+    };
+    assert!(!named(&run_as(&session, "HISTORY SPACE").await).contains(&"C-2".to_string()));
+
+    let purged = run_as(&nexus.system_session(), r#"PURGE "C-2" CONFIRM "PURGE""#).await;
+    assert_eq!(
+        purged.status,
+        TopLevelStatus::Succeeded,
+        "{:?}",
+        purged.error
+    );
+
+    assert!(
+        !named(&run_as(&session, "HISTORY SPACE").await).contains(&"C-2".to_string()),
+        "erasing a secret element must not put it into a restricted reader's history"
+    );
+    let stub = run_as(
+        &session,
+        r#"FIND(?c.id) WHERE { ?c CONCEPT {state: "purged"} }"#,
+    )
+    .await;
+    assert_eq!(stub.status, TopLevelStatus::Succeeded);
+    assert!(
+        stub.first_result().unwrap().as_array().unwrap().is_empty(),
+        "nor show the reader that something was there"
+    );
+    // The owner still finds the stub, which is what it is for.
+    let owner = run_as(
+        &nexus.system_session(),
+        r#"FIND(?c.id) WHERE { ?c CONCEPT {state: "purged"} }"#,
+    )
+    .await;
+    assert_eq!(
+        owner.first_result().unwrap().as_array().unwrap().clone(),
+        vec![serde_json::json!("C-2")]
+    );
+}
+
+#[tokio::test]
 async fn an_export_carries_only_what_the_caller_could_read() {
     // §144. And the manifest already says `partial`, so a destination is not
     // told it received a complete Space.
